@@ -35,3 +35,28 @@ package lifecycle
 //verif:call[wait-after-stop] (*Service).WaitPipeline requires succeeded("(*Service).Stop") && arg1 == pipelineID
 //verif:call[persisted-after-drain] ConnectorService.WaitPersisted requires succeeded("(*Service).Stop") && succeeded("(*Service).WaitPipeline")
 //verif:ensures[nil-means-all-three] err == nil ==> succeeded("(*Service).Stop") && succeeded("(*Service).WaitPipeline") && called("ConnectorService.WaitPersisted")
+
+// ---- C11: publication discipline of a run (default engine) -------------------------
+// Wait acts on the live run if there is one, and only otherwise on the recorded
+// terminal result.
+//verif:func (*Service).WaitPipeline(s, id) (err)
+//verif:call[live-run-first] csync.(*Map).Get requires arg1 == id
+//verif:call[wait-on-the-live-run] tomb.(*Tomb).Wait requires result_of("csync.(*Map).Get", 1) && count("csync.(*Map).Get") == 1
+
+// Start refuses a running pipeline, clears the previous terminal result before the
+// new run is published, and a recovered run inherits the retry bookkeeping.
+//verif:func (*Service).Start(s, ctx, pipelineID) (err)
+//verif:call[clear-old-result-before-new-run] (*Service).runPipeline requires called("csync.(*Map).Delete") && succeeded("(*Service).buildRunnablePipeline") && result_of("(*Instance).GetStatus", 0) != StatusRunning
+//verif:call[not-when-running] (*Service).buildRunnablePipeline requires result_of("(*Instance).GetStatus", 0) != StatusRunning
+
+// Stop acts on the published run and only when it is running or recovering.
+//verif:func (*Service).Stop(s, ctx, pipelineID, force) (err)
+//verif:call[graceful-on-published-run] (*Service).stopGraceful requires result_of("csync.(*Map).Get", 1) && arg2 == result_of("csync.(*Map).Get", 0) && !force
+//verif:call[forceful-on-published-run] (*Service).stopForceful requires result_of("csync.(*Map).Get", 1) && arg2 == result_of("csync.(*Map).Get", 0) && force
+
+// The run is published (under the publication lock) before the status says
+// Running; if that status write fails, only this run's own entry is removed.
+//verif:func (*Service).runPipeline(s, ctx, rp) (err)
+//verif:call[publish-before-status] PipelineService.UpdateStatus requires called("csync.(*Map).Set") && arg2 == StatusRunning
+//verif:call[publish-under-lock] csync.(*Map).Set requires called("sync.(*Mutex).Lock") && count("sync.(*Mutex).Unlock") == 0 && arg2 == rp
+//verif:call[unpublish-own-entry-only] (*Service).deleteRunningPipelineIfCurrent requires arg2 == rp && called("PipelineService.UpdateStatus") && !succeeded("PipelineService.UpdateStatus")
